@@ -53,6 +53,13 @@ func ValidateLayout(dir string) []string {
 		probs = append(probs, "index.json missing or unparsable")
 		return probs
 	}
+	// the image-spec requires "manifests" to be an array (an index without entries is `[]`, not `null` or absent)
+	var rawIdx map[string]json.RawMessage
+	if json.Unmarshal(ib, &rawIdx) == nil {
+		if mr, ok := rawIdx["manifests"]; !ok || len(mr) == 0 || mr[0] != '[' {
+			probs = append(probs, "index.json: manifests is not an array")
+		}
+	}
 	seen := map[string]bool{}
 	for _, m := range idx.Manifests {
 		if tg := m.Annotations[AnnotRefName]; tg != "" {
